@@ -85,10 +85,16 @@ def keyAttrs (sch : Schema) (k : KeyId) : List AttrId := (sch.ckeys[k]?).getD []
 def ckeysWith (sch : Schema) (a : AttrId) : List KeyId :=
   (List.range sch.ckeys.length).filter fun k => (sch.keyAttrs k).contains a
 
-def isKeyPart (sch : Schema) (a : AttrId) : Bool :=
+/-- the attribute is an int attribute (not a relationship) -/
+def isScalar (sch : Schema) (a : AttrId) : Bool :=
   match sch.decl a with
-  | some d => d.unique || !(sch.ckeysWith a).isEmpty
+  | some d => d.kind = .scalar
   | none => false
+
+def isKeyPart (sch : Schema) (a : AttrId) : Bool :=
+  (match sch.decl a with
+   | some d => d.unique
+   | none => false) || !(sch.ckeysWith a).isEmpty
 
 end Schema
 
@@ -446,6 +452,7 @@ def refWrite (bit : Bool) (o : ObjId) (a : AttrId) (v : Option Nat) (st : St) : 
 def attrClearRev (sch : Schema) (o : ObjId) (a : AttrId) (st : St) : Res :=
   if !(o < st.store.n) then .err .noSuchObject st else                      -- (not expressible in Python: a reference to no object)
   if (st.store.row o).status.isDel then .err .objectDeleted st else         -- throw_object_was_deleted
+  if sch.isKeyPart a then .err .noSuchAttr st else                          -- (outside the model: a relationship attribute that is part of a key)
   match sch.decl a, sch.decl ((sch.decl a).map (·.rev) |>.getD a) with
   | some d, some rd =>
     if d.required then .err .valueError st else                             -- Required.validate(None)
@@ -462,6 +469,7 @@ def attrClearRev (sch : Schema) (o : ObjId) (a : AttrId) (st : St) : Res :=
 def attrSetRev (sch : Schema) (o : ObjId) (a : AttrId) (x : ObjId) (st : St) : Res :=
   if !(o < st.store.n) then .err .noSuchObject st else
   if (st.store.row o).status.isDel then .err .objectDeleted st else
+  if sch.isKeyPart a then .err .noSuchAttr st else
   match sch.decl a, sch.decl ((sch.decl a).map (·.rev) |>.getD a) with
   | some d, some rd =>
     let old := (st.store.row o).val a
